@@ -11,22 +11,7 @@ From SCC Require Import Base.Sexp Lang.SynUtil Lang.FunSyn Model.Check Sem.FunTy
 Import ListNotations.
 Open Scope list_scope.
 
-(* ---------- the two guards ---------- *)
-Definition decl_names_ok (d : fdecl) : bool :=
-  match d with
-  | FDData d => name_ok (fdaname d) && forallb (fun c => name_ok (fctname c) && ctx_names_ok (fctargs c)) (fdactors d)
-  | FDCodata d => name_ok (fcoaname d)
-                  && forallb (fun c => name_ok (fdtname c) && ctx_names_ok (fdtargs c) && ty_names_ok (fdtcont c)) (fcodtors d)
-  | FDDef d => ctx_names_ok (fdctx d) && ty_names_ok (fdret d) && term_names_ok (fdbody d)
-  end.
-(* every type name, constructor name and destructor name in the program is free of "[", "]", ",",
-   " " and is not "i64" *)
-Definition prog_names_ok (p : fprog) : bool := forallb decl_names_ok (fpdecls p).
-(* the part of [decls_ok] the checker does not establish: every type written in a data/codata
-   declaration is i64, a parameter without arguments, or a declared type with the right number of
-   well-formed arguments *)
-Definition decl_types_wf (ts : list tdecl) : bool :=
-  forallb (fun t => forallb (xsig_ok ts (td_params t)) (td_xtors t)) ts.
+(* ---------- the two guards: prog_names_ok, decl_types_wf (definitions in Sem/FunNames.v) ---------- *)
 Lemma decls_ok_types_wf : forall ts, decls_ok ts = true -> decl_types_wf ts = true.
 Proof.
   intros ts H. unfold decls_ok, decl_types_wf in *. rewrite forallb_forall in *. intros t Ht.
